@@ -157,6 +157,7 @@ def make_frames(r, n: int, frame_id: str) -> List[FrameGroundTruth]:
     n_ids = r.randint(1, 8)
     ego = [r.uniform(-1e4, 1e4) if r.random() < 0.5 else r.uniform(-50, 50), r.uniform(-1e4, 1e4) if r.random() < 0.5 else r.uniform(-50, 50), 0.0]
     ego_yaw = O.rand_yaw(r)
+    tilt = (r.uniform(-0.15, 0.15), r.uniform(-0.2, 0.2)) if r.random() < 0.3 else None
     tracks = {f"id{k}": dict(p=[r.uniform(-60, 60), r.uniform(-60, 60), r.uniform(-1, 1)], v=[r.uniform(-10, 10), r.uniform(-10, 10)], yaw=O.rand_yaw(r), w=r.uniform(-1.5, 1.5)) for k in range(n_ids)}
     if frame_id == "map":
         for tr in tracks.values():
@@ -184,7 +185,14 @@ def make_frames(r, n: int, frame_id: str) -> List[FrameGroundTruth]:
                     o.state.orientation = -o.state.orientation
             objs.append(o)
         r.shuffle(objs)  # annotation order is not stable between frames
-        frames.append(FrameGroundTruth(unix_time=t, frame_name=str(k), objects=objs, transforms=[O.ego2map(ep, ey)]))
+        if tilt is None:
+            ego_tf = O.ego2map(ep, ey)
+        else:
+            # the ego on a slope / bank (pitch and roll next to the yaw), slowly changing
+            from perception_eval.common.transform import HomogeneousMatrix
+
+            ego_tf = HomogeneousMatrix(np.array(ep, dtype=float), O.quat(ey, roll=tilt[0] + 0.02 * sec, pitch=tilt[1] - 0.03 * sec), src=FrameID.BASE_LINK, dst=FrameID.MAP)
+        frames.append(FrameGroundTruth(unix_time=t, frame_name=str(k), objects=objs, transforms=[ego_tf]))
     return frames
 
 
